@@ -204,7 +204,9 @@ func runC19(c *eng.Ctx) {
 		checkSrc(src, countNodes(t) >= 2)
 	}
 	// leaves: every operator x spelling x literal (escapes)
-	paths := [][]string{{"a"}, {"a", "b"}, {"a", "0", "c"}, {"a", "b c"}, {"a/b", "é"}, {"a", "x.y", ""}, {"a", "cpu%"}, {"a", "%s", "%d"}}
+	paths := [][]string{{"a"}, {"a", "b"}, {"a", "0", "c"}, {"a", "b c"}, {"a/b", "é"}, {"a", "x.y", ""}, {"a", "cpu%"}, {"a", "%s", "%d"},
+		// parts that a file-path cleaner would drop, resolve or merge (rendering a selector is joining its parts, nothing else)
+		{"a", ".", "b"}, {"a", "..", "b"}, {"a/", "b"}, {"a", "", "b"}, {"..", "a"}, {"a", "b/"}}
 	litsL := []string{"1", "-1.5", "abc", "a b", "", "/a/b", "é\"", "`", "\n\t", "\x00\x7f", "\\", "日本", " "}
 	for op := 0; op < 8; op++ {
 		for _, path := range paths {
